@@ -1,8 +1,9 @@
 (** C10 -- loading, verifying and compiling stay consistent over any history of API calls.
-    theories/VmApi.v: implementation state machine, abstract specification, refinement.  The state machine is tied to the
-    code twice: the effect lists of the state-changing methods are regenerated from lib.rs (coq/gen/ApiFx.v) and running
-    them in program order is proved equal to it (C10_model_is_the_code, theories/ApiFxProofs.v); and checks/C10.py compares
-    it with the real VM kinds on histories of calls. *)
+    theories/VmApi.v: implementation state machine (program, verifier, helpers, compiled code of both engines, stack-usage
+    calculator and the frame-size table), abstract specification, refinement.  The state machine is tied to the code twice:
+    the effect lists of the state-changing methods are regenerated from lib.rs (coq/gen/ApiFx.v) and running them in program
+    order is proved equal to it (C10_model_is_the_code, theories/ApiFxProofs.v); and checks/C10.py compares it with the real
+    VM kinds on histories of calls. *)
 From Coq Require Import ZArith List Bool.
 From RbpfV Require Import VmApi ApiFx ApiFxProofs.
 From RbpfV.gen Require Import ApiFx.
@@ -10,51 +11,61 @@ Import ListNotations.
 Open Scope Z_scope.
 
 Section C10.
-Variables (prog vf helpers : Type) (accepts : vf -> prog -> bool) (vdefault : vf)
-          (hadd : helpers -> Z -> helpers) (value : prog -> helpers -> Z + unit) (compilable : prog -> helpers -> bool).
+Variables (prog vf helpers calc : Type) (accepts : vf -> prog -> bool) (vdefault : vf)
+          (hadd : helpers -> Z -> helpers) (cdefault : calc)
+          (value : prog -> helpers -> option (prog * calc) -> Z + unit) (cvalue : prog -> helpers -> Z + unit)
+          (compilable : prog -> helpers -> bool).
+Notation i_run' := (i_run prog vf accepts helpers hadd calc value cvalue compilable).
+Notation i_step' := (i_step prog vf accepts helpers hadd calc value cvalue compilable).
+Notation a_run' := (a_run prog vf accepts helpers hadd calc value cvalue compilable).
+Notation a_step' := (a_step prog vf accepts helpers hadd calc value cvalue compilable).
+Notation fx_call' := (fx_call prog vf accepts helpers hadd calc compilable).
 
-(** for every VM produced by [new] and every finite history of calls, the implementation answers
-    exactly as the specification in which compiled code is a function of the loaded program *)
+(** for every VM produced by [new] and every finite history of calls, the implementation answers exactly as the
+    specification in which compiled code is a function of the loaded program and the interpreter runs the loaded program
+    with the frame sizes of that program under the calculator most recently installed *)
 Theorem C10_refinement : forall p h0 i ops,
-  i_new prog vf accepts vdefault helpers p h0 = Some i ->
-  i_run prog vf accepts helpers hadd value compilable i ops
-  = a_run prog vf accepts helpers hadd value compilable (abs prog vf helpers i) ops.
-Proof. exact (new_refines prog vf accepts vdefault helpers hadd value compilable). Qed.
+  i_new prog vf accepts vdefault helpers calc cdefault p h0 = Some i ->
+  i_run' i ops = a_run' (abs prog vf helpers calc i) ops.
+Proof. exact (new_refines prog vf accepts vdefault helpers hadd calc cdefault value cvalue compilable). Qed.
 
 (** a set_program / set_verifier call that returns an error leaves the VM exactly as before *)
 Theorem C10_failed_call_is_noop : forall a o,
-  snd (a_step prog vf accepts helpers hadd value compilable a o) = RErrVerifier ->
-  fst (a_step prog vf accepts helpers hadd value compilable a o) = a.
-Proof. exact (failed_call_is_noop prog vf accepts helpers hadd value compilable). Qed.
+  snd (a_step' a o) = RErrVerifier -> fst (a_step' a o) = a.
+Proof. exact (failed_call_is_noop prog vf accepts helpers hadd calc value cvalue compilable). Qed.
 
 (** the loaded program was accepted by the verifier in force (when loaded, or when the verifier was installed) *)
 Theorem C10_loaded_is_verified : forall a o,
-  a_inv prog vf accepts helpers a -> a_inv prog vf accepts helpers (fst (a_step prog vf accepts helpers hadd value compilable a o)).
-Proof. exact (a_inv_step prog vf accepts helpers hadd value compilable). Qed.
+  a_inv prog vf accepts helpers calc a -> a_inv prog vf accepts helpers calc (fst (a_step' a o)).
+Proof. exact (a_inv_step prog vf accepts helpers hadd calc value cvalue compilable). Qed.
 
 (** the hand-written state machine is what lib.rs does: for set_program, set_verifier, register_helper,
     set_stack_usage_calculator, jit_compile and cranelift_compile of EbpfVmMbuff (to which the other VM kinds delegate, or whose
     effects they repeat -- checked by the translator), executing the regenerated effects in order, stopping at the first
-    failing step with the state as it is then, gives the state and answer of [i_step] *)
+    failing step with the state as it is then, gives the state and answer of [i_step] -- the frame-size table included: it is
+    computed from the program being loaded with the calculator in force, and recomputed for the loaded program when a
+    calculator is installed *)
 Theorem C10_model_is_the_code : forall s,
-  (forall p, fx_call prog vf accepts helpers hadd compilable gen_fx_set_program (AProg prog vf p) s
-             = i_step prog vf accepts helpers hadd value compilable s (OSetProgram prog vf p)) /\
-  (forall v, fx_call prog vf accepts helpers hadd compilable gen_fx_set_verifier (AVf prog vf v) s
-             = i_step prog vf accepts helpers hadd value compilable s (OSetVerifier prog vf v)) /\
-  (forall id, fx_call prog vf accepts helpers hadd compilable gen_fx_register_helper (AId prog vf id) s
-             = i_step prog vf accepts helpers hadd value compilable s (ORegisterHelper prog vf id)) /\
-  fx_call prog vf accepts helpers hadd compilable gen_fx_set_stack_usage_calculator (ANone prog vf) s
-    = i_step prog vf accepts helpers hadd value compilable s (OSetCalc prog vf) /\
-  fx_call prog vf accepts helpers hadd compilable gen_fx_jit_compile (ANone prog vf) s
-    = i_step prog vf accepts helpers hadd value compilable s (OJitCompile prog vf) /\
-  fx_call prog vf accepts helpers hadd compilable gen_fx_cranelift_compile (ANone prog vf) s
-    = i_step prog vf accepts helpers hadd value compilable s (OCraneliftCompile prog vf).
-Proof. exact (fx_is_api prog vf accepts helpers hadd value compilable). Qed.
+  (forall p, fx_call' gen_fx_set_program (AProg prog vf calc p) s = i_step' s (OSetProgram prog vf calc p)) /\
+  (forall v, fx_call' gen_fx_set_verifier (AVf prog vf calc v) s = i_step' s (OSetVerifier prog vf calc v)) /\
+  (forall id, fx_call' gen_fx_register_helper (AId prog vf calc id) s = i_step' s (ORegisterHelper prog vf calc id)) /\
+  (forall c, fx_call' gen_fx_set_stack_usage_calculator (ACalc prog vf calc c) s = i_step' s (OSetCalc prog vf calc c)) /\
+  fx_call' gen_fx_jit_compile (ANone prog vf calc) s = i_step' s (OJitCompile prog vf calc) /\
+  fx_call' gen_fx_cranelift_compile (ANone prog vf calc) s = i_step' s (OCraneliftCompile prog vf calc).
+Proof. exact (fx_is_api prog vf accepts helpers hadd calc value cvalue compilable). Qed.
 
 (** executions never change the state *)
-Theorem C10_execution_is_pure : forall a o, o = OExec prog vf \/ o = OExecJit prog vf \/ o = OExecCranelift prog vf ->
-  fst (a_step prog vf accepts helpers hadd value compilable a o) = a.
-Proof. exact (exec_pure prog vf accepts helpers hadd value compilable). Qed.
+Theorem C10_execution_is_pure : forall a o, o = OExec prog vf calc \/ o = OExecJit prog vf calc \/ o = OExecCranelift prog vf calc ->
+  fst (a_step' a o) = a.
+Proof. exact (exec_pure prog vf accepts helpers hadd calc value cvalue compilable). Qed.
+
+(** the interpreter's answer depends on the loaded program, the helpers and the calculator in force -- never on a program
+    loaded before or on the order of the calls that led there *)
+Theorem C10_interpreter_uses_the_loaded_programs_frames : forall a p,
+  a_loaded prog vf helpers calc a = Some p ->
+  snd (a_step' a (OExec prog vf calc))
+  = exec_out (value p (a_helpers prog vf helpers calc a) (Some (p, a_calc prog vf helpers calc a))).
+Proof. exact (exec_uses_loaded_frames prog vf accepts helpers hadd calc value cvalue compilable). Qed.
 End C10.
 
 Print Assumptions C10_refinement.
@@ -62,3 +73,4 @@ Print Assumptions C10_failed_call_is_noop.
 Print Assumptions C10_loaded_is_verified.
 Print Assumptions C10_execution_is_pure.
 Print Assumptions C10_model_is_the_code.
+Print Assumptions C10_interpreter_uses_the_loaded_programs_frames.
